@@ -4,6 +4,7 @@ package main
 
 import (
 	"fmt"
+	"go/constant"
 	"go/token"
 	"go/types"
 	"sort"
@@ -151,6 +152,48 @@ func ruleOneAggregation(r *Run, rule string, fn *ssa.Function, dir, kind string)
 		ks := c.S(mu.Key)
 		if ks == "get:id(P1[range].Node)" || ks == "P1[range].Id" {
 			filed = true
+		}
+	}
+	if !filed {
+		// the grouping step extracted into a package function: g(…, results, …) files its parameter by id, hands the
+		// map back, and that result is the per-id map ranged over here
+		for _, cs := range callsIn(fn, func(cc *ssa.CallCommon) bool { g := staticCallee(cc); return g != nil && g.Pkg == w.SPkg }) {
+			call, ok := cs.(*ssa.Call)
+			if !ok {
+				continue
+			}
+			g := staticCallee(call.Common())
+			for j, a := range call.Call.Args {
+				if a != ssa.Value(fn.Params[1]) {
+					continue
+				}
+				gc := NewCanon(w)
+				for _, mu := range mapUpdatesOf(g) {
+					ks := gc.S(mu.Key)
+					if ks != fmt.Sprintf("get:id(P%d[range].Node)", j) && ks != fmt.Sprintf("P%d[range].Id", j) {
+						continue
+					}
+					// the updated map is returned …
+					for _, ret := range returnsOf(g) {
+						for ri, res := range ret.Results {
+							if res != mu.Map {
+								continue
+							}
+							// … and is the map this function emits from
+							src := perID
+							if ex, ok := src.(*ssa.Extract); ok && ex.Tuple == ssa.Value(call) && ex.Index == ri {
+								filed = true
+							}
+							if src == ssa.Value(call) && len(ret.Results) == 1 {
+								filed = true
+							}
+						}
+					}
+				}
+				if filed {
+					r.Analysed(w.Name(g))
+				}
+			}
 		}
 	}
 	r.Check(filed, rule, "agg:"+name+":files-by-id", site, "every input result is filed under its own id (range over the whole input)", "input results are not filed under their own id")
@@ -457,6 +500,12 @@ func ruleLimitAutocut(r *Run, p string) {
 				// range over diff, diff = make(len(P0))
 				ok = rangeBoundIs(c, au, v, "len(P0)")
 			}
+			if ph, isPhi := v.(*ssa.Phi); !ok && isPhi {
+				// counted loop for i := k; i < len(diff); i++ (k ≥ 0)
+				if init, bound, isLoop := countedLoop(ph); isLoop && init >= 0 {
+					ok = boundIsLenOf(c, bound, "len(P0)")
+				}
+			}
 			if !ok {
 				bad = s + " at " + w.InstrPos(ret)
 			}
@@ -468,6 +517,20 @@ func ruleLimitAutocut(r *Run, p string) {
 		allInstrs(au, func(in ssa.Instruction) {
 			if bo, ok := in.(*ssa.BinOp); ok && bo.Op == token.EQL && isRangeIndex(bo.X) && isZeroConst(bo.Y) {
 				okSkip = true
+			}
+			// or the traversal starts at 1: every diff[i-k] read is indexed by a counted loop variable with init ≥ 1
+			if ph, ok := in.(*ssa.Phi); ok {
+				if init, _, isLoop := countedLoop(ph); isLoop && init >= 1 {
+					indexes := false
+					for _, ref := range *ph.Referrers() {
+						if _, ok := ref.(*ssa.IndexAddr); ok {
+							indexes = true
+						}
+					}
+					if indexes {
+						okSkip = true
+					}
+				}
 			}
 		})
 		r.Check(okSkip, rule, "limit:Autocut:skip-first", w.Pos(au.Pos())+" Autocut", "index 0 is skipped before diff[i-1] is read", "diff[i-1] is read without skipping i == 0")
@@ -483,6 +546,21 @@ func ruleLimitAutocut(r *Run, p string) {
 		})
 		r.Check(okShort, rule, "limit:Autocut:short", w.Pos(au.Pos())+" Autocut", "inputs of length ≤ 1 return early (no division by len−1 = 0)", "inputs of length ≤ 1 are not returned early")
 	}
+}
+
+// boundIsLenOf: bound is want, or len(x) with x a slice made with length want.
+func boundIsLenOf(c *Canon, bound ssa.Value, want string) bool {
+	if c.S(bound) == want {
+		return true
+	}
+	if call, ok := bound.(*ssa.Call); ok {
+		if b, ok := call.Call.Value.(*ssa.Builtin); ok && b.Name() == "len" {
+			if mk, ok := call.Call.Args[0].(*ssa.MakeSlice); ok && c.S(mk.Len) == want {
+				return true
+			}
+		}
+	}
+	return false
 }
 
 // rangeBoundIs: v is the induction value of a rotated range loop whose bound has canonical form want or is the len of a
@@ -818,21 +896,94 @@ func ruleRanks(r *Run, rule string, fn *ssa.Function) {
 		}
 		return ""
 	}
+	cmpAtom := func(l, rr string, op token.Token) string {
+		switch {
+		case l == "si" && rr == "sj" && op == token.GTR, l == "sj" && rr == "si" && op == token.LSS:
+			return "I>J"
+		case l == "si" && rr == "sj" && op == token.LSS, l == "sj" && rr == "si" && op == token.GTR:
+			return "I<J"
+		}
+		return ""
+	}
+	var predCall *ssa.Call // swap predicate extracted into a pure package function
 	rows, _ := iterationPaths(loop, func(cond ssa.Value) (string, bool) {
 		if cond == ssa.Value(fn.Params[1]) {
 			return "ASC", false
 		}
 		if bo, ok := cond.(*ssa.BinOp); ok {
-			l, rr := sym(bo.X), sym(bo.Y)
-			switch {
-			case l == "si" && rr == "sj" && bo.Op == token.GTR, l == "sj" && rr == "si" && bo.Op == token.LSS:
-				return "I>J", false
-			case l == "si" && rr == "sj" && bo.Op == token.LSS, l == "sj" && rr == "si" && bo.Op == token.GTR:
-				return "I<J", false
+			if a := cmpAtom(sym(bo.X), sym(bo.Y), bo.Op); a != "" {
+				return a, false
+			}
+		}
+		if call, ok := cond.(*ssa.Call); ok {
+			if g := staticCallee(call.Common()); g != nil && g.Pkg == w.SPkg && (predCall == nil || predCall == call) {
+				predCall = call
+				return "PRED", false
 			}
 		}
 		return "", false
 	})
+	if predCall != nil {
+		// the loop swaps ⇔ PRED; PRED's own table over (ASC, I>J, I<J) is evaluated on the helper's body
+		badP, _ := tableCheck([]string{"PRED"}, rows, func(pr pathRow) string {
+			if pr.P.Has(swaps[0]) {
+				return "swap"
+			}
+			return "keep"
+		}, func(a map[string]bool) string {
+			if a["PRED"] {
+				return "swap"
+			}
+			return "keep"
+		})
+		g := staticCallee(predCall.Common())
+		r.Analysed(w.Name(g))
+		role := map[int]string{}
+		for i, a := range predCall.Call.Args {
+			if a == ssa.Value(fn.Params[1]) {
+				role[i] = "ASC"
+			} else if sy := sym(a); sy != "" {
+				role[i] = sy
+			}
+		}
+		states := 0
+		for _, asc := range []bool{false, true} {
+			for _, rel := range []string{"I>J", "I<J", "I=J"} {
+				states++
+				got, ok := evalBoolFn(g, func(v ssa.Value) (bool, bool) {
+					switch x := v.(type) {
+					case *ssa.Parameter:
+						if role[paramIndex(x)] == "ASC" {
+							return asc, true
+						}
+					case *ssa.BinOp:
+						px, okx := x.X.(*ssa.Parameter)
+						py, oky := x.Y.(*ssa.Parameter)
+						if okx && oky {
+							switch cmpAtom(role[paramIndex(px)], role[paramIndex(py)], x.Op) {
+							case "I>J":
+								return rel == "I>J", true
+							case "I<J":
+								return rel == "I<J", true
+							}
+						}
+					}
+					return false, false
+				})
+				want := (asc && rel == "I>J") || (!asc && rel == "I<J")
+				if !ok {
+					badP = append(badP, fmt.Sprintf("ASC=%v %s: %s is not decided by the order flag and strict comparisons of its two scores", asc, rel, w.Name(g)))
+				} else if got != want {
+					badP = append(badP, fmt.Sprintf("ASC=%v %s: %s answers %v, specification says %v", asc, rel, w.Name(g), got, want))
+				}
+			}
+		}
+		if len(badP) > 0 {
+			r.Bad(rule, "ranks:swap-table", site, truncList(badP, 4))
+		} else {
+			r.Ok(rule, "ranks:swap-table", site, fmt.Sprintf("swap ⇔ %s(s_i, s_j, ascending); %d states of that predicate: true ⇔ (ascending ∧ s_i > s_j) ∨ (¬ascending ∧ s_i < s_j)", w.Name(g), states))
+		}
+	}
 	bad, states := tableCheck([]string{"ASC", "I>J", "I<J"}, rows, func(pr pathRow) string {
 		if pr.P.Has(swaps[0]) {
 			return "swap"
@@ -847,7 +998,9 @@ func ruleRanks(r *Run, rule string, fn *ssa.Function) {
 		}
 		return "keep"
 	})
-	if len(bad) > 0 {
+	if predCall != nil {
+		// decided above
+	} else if len(bad) > 0 {
 		r.Bad(rule, "ranks:swap-table", site, truncList(bad, 4))
 	} else {
 		r.Ok(rule, "ranks:swap-table", site, fmt.Sprintf("%d states: swap ⇔ (ascending ∧ s_i > s_j) ∨ (¬ascending ∧ s_i < s_j), i < j ⇒ best first", states))
@@ -857,6 +1010,14 @@ func ruleRanks(r *Run, rule string, fn *ssa.Function) {
 	for _, mu := range mapUpdatesOf(fn) {
 		if isRangeIndex(mu.Value) && strings.HasSuffix(c.S(mu.Key), "[range].docID") {
 			okRank = true
+		}
+		// counted loop over the sorted slice: ranks[sorted[i].docID] = i
+		if ph, ok := mu.Value.(*ssa.Phi); ok && strings.HasSuffix(c.S(mu.Key), "[range].docID") {
+			if fa, ok := unloadAddr(mu.Key).(*ssa.FieldAddr); ok {
+				if ia, ok := fa.X.(*ssa.IndexAddr); ok && ia.Index == ssa.Value(ph) {
+					okRank = true
+				}
+			}
 		}
 	}
 	r.Check(okRank, rule, "ranks:position", site, "rank of an id = its position in the sorted order", "rank is not the position of the id in the sorted order")
@@ -885,6 +1046,82 @@ func ruleRanks(r *Run, rule string, fn *ssa.Function) {
 		}
 	})
 	r.Check(okBounds >= 2, rule, "ranks:bounds", site, "exchange sort compares every pair i<j", "exchange sort loop bounds do not cover every pair")
+}
+
+// unloadAddr: the address a loaded value was read from (or v itself).
+func unloadAddr(v ssa.Value) ssa.Value {
+	if u, ok := v.(*ssa.UnOp); ok && u.Op == token.MUL {
+		return u.X
+	}
+	return v
+}
+
+// evalBoolFn interprets a loop-free, effect-free boolean function under a valuation of its atoms (parameters and
+// comparisons of parameters): the result is decided, or ok is false when the body does anything else.
+func evalBoolFn(g *ssa.Function, val func(ssa.Value) (bool, bool)) (bool, bool) {
+	if len(g.Blocks) == 0 {
+		return false, false
+	}
+	env := map[ssa.Value]bool{}
+	var eval func(v ssa.Value) (bool, bool)
+	eval = func(v ssa.Value) (bool, bool) {
+		if b, ok := env[v]; ok {
+			return b, true
+		}
+		switch x := v.(type) {
+		case *ssa.Const:
+			if x.Value != nil && x.Value.Kind() == constant.Bool {
+				return constant.BoolVal(x.Value), true
+			}
+		case *ssa.UnOp:
+			if x.Op == token.NOT {
+				b, ok := eval(x.X)
+				return !b, ok
+			}
+		}
+		return val(v)
+	}
+	b := g.Blocks[0]
+	var prev *ssa.BasicBlock
+	for steps := 0; steps < 64; steps++ {
+		for _, in := range b.Instrs {
+			switch x := in.(type) {
+			case *ssa.Phi:
+				for i, p := range b.Preds {
+					if p == prev {
+						if bv, ok := eval(x.Edges[i]); ok {
+							env[x] = bv
+						} else {
+							return false, false
+						}
+					}
+				}
+			case *ssa.BinOp, *ssa.UnOp, *ssa.DebugRef:
+			case *ssa.If:
+				c, ok := eval(x.Cond)
+				if !ok {
+					return false, false
+				}
+				prev = b
+				if c {
+					b = b.Succs[0]
+				} else {
+					b = b.Succs[1]
+				}
+			case *ssa.Jump:
+				prev = b
+				b = b.Succs[0]
+			case *ssa.Return:
+				if len(x.Results) != 1 {
+					return false, false
+				}
+				return eval(x.Results[0])
+			default:
+				return false, false // calls, stores, loads: not a pure predicate
+			}
+		}
+	}
+	return false, false
 }
 
 // ---------------------------------------------------------------- merge
